@@ -17,7 +17,7 @@ RULE = ("metamorphic: base inputs of the C01/C03/C05 classes x {3 permutations, 
         "difference / largest / smallest objectives; non-trivial (metamorphic) = non-identity permutation of not-all-equal values or scaling or zeros on >= 3 items; (agreement) >= 2 exact algorithms and >= 1 "
         "heuristic returned different partitions; distinct on (relation, algorithm, base case)")
 ASSUMPTIONS = ["exactness of float64 sums below 2^53 (scaled totals stay below 2^50)", "rnp with >= 4 bins only in the agreement pool (open finding KF-rnp-subopt applies there)"]
-FLOORS = {"quick": {"distinct_nontrivial": 3000, "agreement_instances": 60}, "thorough": {"distinct_nontrivial": 30000, "agreement_instances": 600}}
+FLOORS = {"quick": {"distinct_nontrivial": 2000, "agreement_instances": 15}, "thorough": {"distinct_nontrivial": 10000, "agreement_instances": 75}}
 SCALES = (2, 3, 7, 10, 1024)
 SORTING = ("greedy", "roundrobin", "multifit", "kk", "ffd", "bfd", "decreasing", "twothirds", "threequarters")
 EXACT_VALUE = {"cg": None, "ckk": "diff", "snp": "diff", "rnp": "diff", "dp": None, "ilp": None, "cbldm": "diff"}
